@@ -162,6 +162,9 @@ def merge(prog, run, rule):
         elif a is None and _rov_rows(prog, fi, parts[0], plist, pref) is not None and _ref_rows(prog, fi, parts[1], plist, pref) is not None:
             ok0 = False
             why += " (roving rows placed before the reference rows)"
+        elif a is not None and b is None and _setup_vec(parts[1], plist) is not None:
+            ok0 = False
+            why += " (the WHOLE vector is appended: the reference rows appear twice)"
     ob("merge: first setup = [its reference rows in listed order ; its roving rows]", ok0, f"`{why}`", init[0])
     loop = astq.enclosing(pm, upd[0], (ast.For,))
     x1 = upd[0].value
